@@ -75,10 +75,17 @@ package taskfile
 
 // ---- C08: a relative include dir is resolved against the directory of the INCLUDING Taskfile's own file -------
 //@ ghost var entryDir string scratch
+//@ ghost var dirAbs bool scratch
+//@ ghost var dirJoined string scratch
 //@ func (*FileNode).ResolveDir
 //@   site filepath.Dir#1 requires arg0 == node.Entrypoint                                                      [C08]
 //@   site filepath.Dir#1 ghost entryDir := result
 //@   site filepathext.SmartJoin#1 requires arg0 == entryDir                                                    [C08]
+//@   init dirAbs := false
+//@   init dirJoined := ""
+//@   site filepathext.IsAbs#1 ghost dirAbs := result
+//@   site filepathext.SmartJoin#1 ghost dirJoined := result
+//@   ensures result.1 == nil && !dirAbs ==> result.0 == dirJoined   -- every relative dir is joined, whatever its name looks like ("gitops", "a://b")   [C08]
 
 // ---- C09 / C20: the cache entry of a remote Taskfile is named after its WHOLE location (query included): two
 // includes that differ anywhere in their URL never share a cache file
